@@ -2,7 +2,11 @@
 # MANIFEST.setup_cmd: offline build of the harness workspace against /repo's current tree.
 set -e
 export CARGO_NET_OFFLINE=true
-export CARGO_TARGET_DIR=/verif/.target
 cd /verif/harness
-cargo build --release --offline --workspace 2>&1 | tail -3
+# each engine is built the way ./check builds it (per package, so that cargo does not unify features)
+for p in e_bits e_prim e_uper e_decode e_front e_codegen e_proto; do
+  if [ -d "$p" ]; then CARGO_TARGET_DIR=/verif/.target cargo build --release --offline -q -p "$p" 2>&1 | tail -3; fi
+done
+# C19: second build of the decoder engine with the subject's descriptive-deserialize-errors feature
+CARGO_TARGET_DIR=/verif/.target_desc cargo build --release --offline -q -p e_decode --features descriptive 2>&1 | tail -3
 echo "setup ok"
